@@ -93,6 +93,34 @@ thread_local! {
     static SEEN_HELPERS: RefCell<HashSet<u64>> = RefCell::new(HashSet::new());
 }
 
+/// One refuting observation of the work monitor: a drained iterator yielded
+/// more items than the ceiling its format allows.
+#[derive(Clone, Debug)]
+pub struct WorkAlarm {
+    pub helper: &'static str,
+    /// the ceiling as an expression over the format's fields (part of the signature)
+    pub ceiling_expr: &'static str,
+    pub ceiling: u64,
+    /// items yielded when the drain stopped (a lower bound when `stopped_by_cap`)
+    pub yielded: u64,
+    /// the iterator had not ended when the hard cap (4 x ceiling + 1024) / the drain budget stopped it
+    pub stopped_by_cap: bool,
+}
+
+/// Largest ceiling that is checked by draining (a larger one falls back to `take(N)`).
+pub const DRAIN_MAX_CEILING: u64 = if cfg!(miri) { 4096 } else { 1 << 21 };
+
+/// Items (beyond the digested prefix) that the work monitor may drain per walk.
+pub fn drain_budget(effort: Effort) -> u64 {
+    if cfg!(miri) {
+        return 20_000;
+    }
+    match effort {
+        Effort::Full => 64_000_000,
+        Effort::Mutant => 6_000_000,
+    }
+}
+
 pub struct Obs {
     pub d: Digest,
     /// generic fields visited (get_field / array get calls that returned a value)
@@ -117,6 +145,20 @@ pub struct Obs {
     pub panic_sites: Vec<(u64, String)>,
     pub section_seq: u64,
     pub budget: u64,
+    /// work monitor: refuting observations (iterator exceeded its format ceiling)
+    pub work_alarms: Vec<WorkAlarm>,
+    /// work monitor: iterators drained to their end within their ceiling
+    pub work_checked: u64,
+    /// work monitor: iterators consumed through `take(N)` only (ceiling too large to drain, or drain budget used up)
+    pub work_unchecked: u64,
+    /// work monitor: items yielded by all drained iterators
+    pub work_items: u64,
+    /// work monitor: largest yielded/ceiling ratio seen, in 1/1000 (ceiling > 0 only)
+    pub work_max_permille: u64,
+    /// work monitor: items beyond the digested prefixes that may still be drained in this walk
+    pub drain_left: u64,
+    /// work monitor: per helper (iterators consumed, items yielded)
+    pub work_by_helper: std::collections::BTreeMap<&'static str, (u64, u64)>,
 }
 
 impl Obs {
@@ -136,7 +178,82 @@ impl Obs {
             panic_sites: vec![],
             section_seq: 0,
             budget,
+            work_alarms: vec![],
+            work_checked: 0,
+            work_unchecked: 0,
+            work_items: 0,
+            work_max_permille: 0,
+            drain_left: drain_budget(Effort::Mutant),
+            work_by_helper: Default::default(),
         }
+    }
+
+    pub fn for_cfg(cfg: &WalkCfg) -> Self {
+        let mut o = Obs::new(cfg.field_budget);
+        o.drain_left = drain_budget(cfg.effort);
+        o
+    }
+
+    /// Work monitor. Consume `it` (a library iterator whose item count has the
+    /// format-defined ceiling `ceiling`, described by `ceiling_expr`): the first
+    /// `digest_cap` items go to `f` (which digests them), the rest are only
+    /// counted. The drain stops at the end of the iterator, or after
+    /// 4 x ceiling + 1024 items (so that a run-away iterator stays bounded), or
+    /// when the per-walk drain budget is used up. More than `ceiling` items is a
+    /// refuting observation (recorded in `work_alarms`, reported by the caller
+    /// of the walk). A ceiling above `DRAIN_MAX_CEILING` is not checked: the
+    /// iterator is then consumed through the equivalent of `take(digest_cap)`.
+    /// The number of items consumed enters the digest. Returns that number.
+    pub fn drain<I: Iterator>(
+        &mut self,
+        helper: &'static str,
+        ceiling_expr: &'static str,
+        ceiling: u64,
+        digest_cap: usize,
+        it: I,
+        mut f: impl FnMut(&mut Obs, I::Item),
+    ) -> u64 {
+        self.helper(helper);
+        let digest_cap = digest_cap as u64;
+        let checkable = ceiling <= DRAIN_MAX_CEILING;
+        let hard_cap = if checkable { ceiling.saturating_mul(4).saturating_add(1024) } else { digest_cap };
+        let mut n = 0u64;
+        let mut ended = false;
+        let mut it = it;
+        loop {
+            if n >= hard_cap.max(digest_cap) || (n >= digest_cap && (!checkable || self.drain_left == 0)) {
+                break;
+            }
+            let Some(item) = it.next() else {
+                ended = true;
+                break;
+            };
+            n += 1;
+            if n <= digest_cap {
+                f(self, item);
+            } else {
+                self.drain_left -= 1;
+            }
+        }
+        self.d.u64(n);
+        self.d.bytes(&[ended as u8]);
+        self.work_items += n;
+        let e = self.work_by_helper.entry(helper).or_insert((0, 0));
+        e.0 += 1;
+        e.1 += n;
+        if n > ceiling {
+            if self.work_alarms.len() < 16 && !self.work_alarms.iter().any(|a| a.helper == helper && a.ceiling_expr == ceiling_expr) {
+                self.work_alarms.push(WorkAlarm { helper, ceiling_expr, ceiling, yielded: n, stopped_by_cap: !ended });
+            }
+        } else if ended {
+            self.work_checked += 1;
+            if ceiling > 0 {
+                self.work_max_permille = self.work_max_permille.max(n * 1000 / ceiling);
+            }
+        } else {
+            self.work_unchecked += 1;
+        }
+        n
     }
 
     #[inline]
@@ -218,10 +335,13 @@ impl Obs {
         self.section_seq += 1;
         let seq = self.section_seq;
         let saved = (self.d, self.fields, self.nodes, self.helper_calls, self.tables_ok, self.errs);
+        // (work alarms and the drain budget spent are kept: an alarm is a refuting observation whatever happens later in the section)
+        let saved_work = (self.work_checked, self.work_unchecked, self.work_items, self.work_max_permille);
         match vf_core::guard(|| f(self)) {
             Ok(()) => {}
             Err(p) => {
                 (self.d, self.fields, self.nodes, self.helper_calls, self.tables_ok, self.errs) = saved;
+                (self.work_checked, self.work_unchecked, self.work_items, self.work_max_permille) = saved_work;
                 self.d.str("PANIC");
                 self.d.str(&p.signature());
                 let sig = p.signature();
